@@ -355,6 +355,20 @@ func Populate(t *rapid.T, r protoreflect.Message, depth int) {
 	}
 }
 
+// PopulateSparse sets only k drawn fields (plus the required ones), so that each field kind also occurs
+// nearly alone in small messages.
+func PopulateSparse(t *rapid.T, r protoreflect.Message, k int) {
+	fds := r.Descriptor().Fields()
+	for i := 0; i < fds.Len(); i++ {
+		if fd := fds.Get(i); fd.Cardinality() == protoreflect.Required {
+			setField(t, r, fd, 2)
+		}
+	}
+	for i := 0; i < k && fds.Len() > 0; i++ {
+		setField(t, r, fds.Get(rapid.IntRange(0, fds.Len()-1).Draw(t, "sparsefield")), 2)
+	}
+}
+
 func setField(t *rapid.T, r protoreflect.Message, fd protoreflect.FieldDescriptor, depth int) string {
 	switch {
 	case fd.IsList():
